@@ -241,7 +241,7 @@ func OHealthExact(w *World) error {
 			var err error
 			if host.IsMap {
 				var m *atree.OrderedMap
-				m, err = atree.NewMapWithRootID(st6, host.SID, w.digesterBuilder())
+				m, err = atree.NewMapWithRootID(st6, host.SID, w.builderFor(host))
 				if err == nil {
 					_, err = m.Set(tu.CompareValue, tu.GetHashInput, tu.Uint64Value(987654), refValue{target})
 				}
@@ -279,7 +279,7 @@ func OHealthExact(w *World) error {
 			}
 		}
 		if host.IsMap {
-			m, err := atree.NewMapWithRootID(st7, host.SID, w.digesterBuilder())
+			m, err := atree.NewMapWithRootID(st7, host.SID, w.builderFor(host))
 			if err == nil {
 				_, err = m.Set(tu.CompareValue, tu.GetHashInput, tu.Uint64Value(987655), foreign)
 			}
